@@ -24,10 +24,11 @@ Deg(k) == CASE k \in {"sum", "mean", "ewm", "wma", "std", "min", "max", "reg", "
             [] k \in {"var", "mse"} -> 2
             [] OTHER -> 0           \* skew, kurt, arg-extrema, ranks, z-score, min-max normalisation
 
-\* the statistic's value decides by a threshold on a spread that is zero in exact arithmetic
-\* (z-score of a plateau): measured in a non-dyadic unit the computed spread is a rounding
-\* residue, so such a kernel is not replayed in other units
-UnitSafe(k) == k # "zscore"
+\* The z-score decides "no spread" by an absolute threshold on a variance that is zero only in
+\* exact arithmetic: measured in a large non-dyadic unit the computed variance of a plateau is a
+\* rounding residue above any fixed threshold, so the kernel is replayed in SMALL units only
+\* (|u| < 1, where the residue - of the order u^2 * 1e-16 - stays far below the threshold).
+UnitSafe(k) == IF k = "zscore" THEN "small" ELSE "all"
 
 InUnit(s, u) == [i \in 1..Len(s) |-> IF s[i] = NULL THEN NULL ELSE u * s[i]]
 
